@@ -82,7 +82,7 @@ def strategy_case(draw):
     dims = [[draw(st.integers(6, 60)) for _ in range(3)] for _ in range(nt)]
     c = {"kind": draw(st.sampled_from(["oob", "oob", "trim", "points", "mask"])), "dims": dims, "parts": draw(particles(nt, dims)),
          "ids_seed": draw(st.integers(0, 10**6)), "cols_seed": draw(st.integers(0, 10**6)),
-         "index": draw(st.sampled_from(["default", "default", "reversed", "offset", "strided"])),
+         "index": draw(st.sampled_from(["default", "default", "reversed", "offset", "strided", "repeated"])),
          "bulk": draw(st.one_of(st.none(), st.none(), st.fixed_dictionaries({"seed": st.integers(0, 2**31 - 1), "n": st.integers(1, 60)})))}
     k = c["kind"]
     if k == "oob":
@@ -102,6 +102,10 @@ def strategy_case(draw):
                         "near": draw(st.one_of(st.none(), st.integers(0, 13)))} for _ in range(npnt)]
         c["radius"] = draw(st.one_of(gen.finite(0.5, 20), st.integers(1, 10).map(float)))
         c["inplace"] = draw(st.booleans())
+        if draw(st.integers(0, 2)) == 0 and npnt:
+            # crowded tomograms: hundreds of particles, many of them (more than any fixed neighbour count) inside one sphere
+            c["bulk"] = {"seed": draw(st.integers(0, 2**31 - 1)), "n": draw(st.integers(150, 400))}
+            c["radius"] = draw(st.integers(15, 45)) + 0.37
     else:
         c["mshape"] = [[draw(st.integers(3, 24)) for _ in range(3)] for _ in range(nt)]
         c["mseed"] = draw(st.integers(0, 2**31 - 1))
